@@ -353,6 +353,17 @@ def r4_client_acks(ctx):
                 pass_targets.append(t2)
         skipping = [e for e in b.exits() for t2 in pass_targets if b.reachable_avoiding(e, (), start=t2, removed_blocks=(abb,))]
         ctx.check(not skipping, "client/every-consumed-message-acked", site_of(b, ready), "a consumed message may go unacknowledged (the server would re-send it until the timeout)")
+    # (c') a consumed (and acknowledged) message is applied: from the `ready` edge no exit without handing the message to the
+    # per-entity application (which alone decides, per entity, what is outdated)
+    if ready is not None:
+        aps = [bb for bb, t in b.calls() if callee_decl(t).endswith("client::apply_array") or callee_decl(t).endswith("client::apply_mutations")]
+        if aps:
+            notapplied = [e for e in b.exits() for t2 in pass_targets if b.reachable_avoiding(e, (), start=t2, removed_blocks=tuple(aps))]
+            ctx.check(not notapplied, "client/every-consumed-message-applied", site_of(b, ready),
+                      "a mutate message can be consumed and acknowledged without being applied: the server stops re-sending values the client never looked at (whether an "
+                      "entity's data is outdated is decided per entity, from its own confirmed tick)")
+        else:
+            ctx.bad("client/apply-site", site_of(b), "no application of the consumed message found next to the acknowledgement", kind="anchor-missing")
     # (d) the collected acknowledgements are sent, after the consumer ran, outside any loop
     ar = ctx.fn("client::apply_replication")
     atr = tracer(ar)
